@@ -56,7 +56,9 @@ def minimize(
     if maxfun is None and maxiter is None:
         maxfun = DEFAULT_MAX_FUN
     function_problem = FunctionProblem(fun, maximize=False, bounds=bounds)
-    wrapped_function_problem = EvalCutoffProblem(function_problem, eval_cutoff=maxfun) if maxfun else function_problem
+    wrapped_function_problem = (
+        EvalCutoffProblem(function_problem, eval_cutoff=maxfun) if maxfun is not None else function_problem
+    )
     gsc: GlobalStopCondition | UniversalStopCondition = (
         SingularProblemEvalLimitReached(maxfun) if maxfun is not None else MetaepochLimit(maxiter)
     )
@@ -84,7 +86,7 @@ def minimize(
     return OptimizeResult(
         x=hms_tree.best_individual.genome,
         # With a budget, deme counters also count the evaluations the cutoff wrapper refused: report the real calls.
-        nfev=wrapped_function_problem.n_evaluations if maxfun else hms_tree.n_evaluations,
+        nfev=wrapped_function_problem.n_evaluations if maxfun is not None else hms_tree.n_evaluations,
         fun=hms_tree.best_individual.fitness,
         nit=hms_tree.metaepoch_count,
     )
